@@ -4,7 +4,7 @@
 # Appends the result to <seed dir>/confirmation.txt
 WT=/var/tmp/wt-confirm
 DIRS=""; for d in "$@"; do DIRS="$DIRS $(readlink -f $d)"; done
-export OMPI_ALLOW_RUN_AS_ROOT=1 OMPI_ALLOW_RUN_AS_ROOT_CONFIRM=1
+export OMPI_ALLOW_RUN_AS_ROOT=1 OMPI_ALLOW_RUN_AS_ROOT_CONFIRM=1 LD_LIBRARY_PATH=/var/tmp/wt-confirm/_build
 git -C /repo worktree remove --force $WT 2>/dev/null
 git -C /repo worktree add --detach $WT HEAD >/dev/null 2>&1 || exit 3
 cd $WT && cmake -G Ninja -B _build -DCMAKE_BUILD_TYPE=RelWithDebInfo -DTesting=ON . >/dev/null 2>&1 && cmake --build _build -j6 >/dev/null 2>&1 || { echo "baseline build failed"; exit 3; }
